@@ -1057,6 +1057,7 @@ func main() {
 	// ---------- YAML ------------------------------------------------------------------------------
 	yamlOracle(ctx, orYaml, items)
 	yamlInputOracle(ctx)
+	longLiteralOracle(ctx)
 
 	ctx.RunStream(stString, strLines, strImpl)
 	stString.Exhaustive = false
